@@ -565,7 +565,9 @@ func (fr *Framer) checkFrameOrder(f Frame) error {
 	}
 
 	switch fh.Type {
-	case FrameHeaders, FrameContinuation:
+	case FrameHeaders, FrameContinuation, FramePushPromise:
+		// PUSH_PROMISE opens a header block as well (RFC 7540 section 6.6);
+		// its END_HEADERS flag has the same value as that of HEADERS.
 		if fh.Flags.Has(FlagHeadersEndHeaders) {
 			fr.lastHeaderStream = 0
 		} else {
